@@ -120,34 +120,44 @@ def _root_.Lang.Ante.Proper : Ante → Prop
   | .conj l r => l.Proper ∧ r.Proper
   | .disj l r => l.Proper ∧ r.Proper
 
+/-- every variable of the antecedent has a term in the evaluation context (its object is true in Python's sense); a
+    rule can only be loaded over such variables, and `Antecedent.activation_degree` raises `ValueError` otherwise -/
+def _root_.Lang.Ante.Termed (c : DegCtx α) : Ante → Prop
+  | .prop v _ _ => c.hasTerms v = true
+  | .anyP v _ => c.hasTerms v = true
+  | .conj l r => l.Termed c ∧ r.Termed c
+  | .disj l r => l.Termed c ∧ r.Termed c
+
 theorem getLast_ne_any {hs : List String} (h : ∀ x ∈ hs, x ≠ "any") : hs.getLast? ≠ some "any" := by
   intro hc
   have := List.mem_of_getLast? hc
   exact h _ this rfl
 
-theorem degree_ofAnte (c : DegCtx α) : ∀ a : Ante, a.Proper →
+theorem degree_ofAnte (c : DegCtx α) : ∀ a : Ante, a.Proper → a.Termed c →
     degree c (ofAnte a) = (match a.den c with | some x => .ok x | none => .error .value)
-  | .prop v hs t, hp => by
+  | .prop v hs t, hp, ht => by
     have hl := getLast_ne_any hp
+    have ht' : c.hasTerms v = true := ht
     by_cases he : c.enabled v = true
-    · simp [ofAnte, degree, Ante.den, he, hl, hedgesReversed_eq, DegCtx.base]
-    · simp [ofAnte, degree, Ante.den, he]
-  | .anyP v hs, _ => by
+    · simp [ofAnte, degree, Ante.den, he, ht', hl, hedgesReversed_eq, DegCtx.base]
+    · simp [ofAnte, degree, Ante.den, he, ht']
+  | .anyP v hs, _, ht => by
+    have ht' : c.hasTerms v = true := ht
     by_cases he : c.enabled v = true
-    · simp [ofAnte, degree, Ante.den, he, hedgesReversed_eq, applyHedges, List.foldr_append]
-    · simp [ofAnte, degree, Ante.den, he]
-  | .conj l r, hp => by
-    have il := degree_ofAnte c l hp.1
-    have ir := degree_ofAnte c r hp.2
+    · simp [ofAnte, degree, Ante.den, he, ht', hedgesReversed_eq, applyHedges, List.foldr_append]
+    · simp [ofAnte, degree, Ante.den, he, ht']
+  | .conj l r, hp, ht => by
+    have il := degree_ofAnte c l hp.1 ht.1
+    have ir := degree_ofAnte c r hp.2 ht.2
     simp only [ofAnte, degree, Ante.den, if_true]
     cases hc : c.conj with
     | none => simp
     | some f =>
       rw [il, ir]
       cases l.den c <;> cases r.den c <;> simp
-  | .disj l r, hp => by
-    have il := degree_ofAnte c l hp.1
-    have ir := degree_ofAnte c r hp.2
+  | .disj l r, hp, ht => by
+    have il := degree_ofAnte c l hp.1 ht.1
+    have ir := degree_ofAnte c r hp.2 ht.2
     have hne : ("or" = "and") = False := by simp
     simp only [ofAnte, degree, Ante.den, hne, if_false, if_true]
     cases hc : c.disj with
